@@ -1,7 +1,7 @@
 (* Extraction of the executable Model and Spec definitions.  ExtrOcamlBasic only: bool, option, list, prod,
    unit, sumbool, sumor map to OCaml natives; N / positive / nat / string / ascii stay Coq datatypes. *)
 From Coq Require Extraction ExtrOcamlBasic.
-From QV Require Import Model.Base Generated.Tables Model.Quote Model.Unquote Model.Split Model.PortRange Model.Unit Model.Lex Model.Parser Model.Path Model.Names Model.Convert Model.Process Model.Links Model.Discover Spec.SdExtract.
+From QV Require Import Model.Base Generated.Tables Model.Quote Model.Unquote Model.Split Model.PortRange Model.Unit Model.Lex Model.Parser Model.Path Model.Names Model.Convert Model.Process Model.Links Model.Discover Spec.SdExtract Spec.Passthrough.
 Extraction Language OCaml.
 Extraction "Extract/model.ml"
   s2l
@@ -13,4 +13,5 @@ Extraction "Extract/model.ml"
   root_includes rootless_includes plan_links process_files convert_one unit_info is_url
   parse_unit to_string write_calls unit_add unit_add_raw unit_set set_entry unit_prepend rename_section merge_from
   lookup_last lookup_last_value lookup_all lookup_all_values lookup_all_args lookup_all_strv lookup_all_key_val lookup_bool has_key to_bool
-  fl_exec fl_args fl_strv sd_split.
+  fl_exec fl_args fl_strv sd_split
+  A_of MANAGED hidden.
